@@ -233,7 +233,20 @@ void *verif_memcpy_t(void *dst, const void *src, size_t n)
 	}
 	return dst;
 }
+#ifdef H_QMEM
+/* exact strcmp for the cache lemmas: names are at most 255 characters + NUL (loop unrolled with an unwinding assertion) */
+int verif_strcmp(const char *a, const char *b)
+{
+	size_t i;
+	for (i = 0; i < 256; i++) {
+		if (a[i] != b[i]) return (unsigned char)a[i] < (unsigned char)b[i] ? -1 : 1;
+		if (a[i] == 0) return 0;
+	}
+	return 0;
+}
+#else
 int verif_strcmp(const char *a, const char *b) { return nondet_int(); }
+#endif
 char *verif_strchr(const char *s, int c)
 {
 	size_t k = nondet_size_t();
@@ -241,7 +254,18 @@ char *verif_strchr(const char *s, int c)
 	__CPROVER_assume(k < 255 && s[k] == (char)c);
 	return (char *)s + k;
 }
+#ifdef H_QMEM
+/* strlen as used by save_to_qmem_pingordata ("name shorter than 5?"): exact for the first five characters */
+size_t verif_strlen(const char *s)
+{
+	size_t n = nondet_size_t();
+	if (s[0] == 0) return 0; if (s[1] == 0) return 1; if (s[2] == 0) return 2; if (s[3] == 0) return 3; if (s[4] == 0) return 4;
+	__CPROVER_assume(n >= 5 && n <= 255 && s[n] == 0);
+	return n;
+}
+#else
 size_t verif_strlen(const char *s) { size_t n = nondet_size_t(); __CPROVER_assume(n <= 7); return n; } /* only encoder names */
+#endif
 
 
 #undef strchr
@@ -354,6 +378,9 @@ ssize_t verif_sendto(int fd, const void *buf, size_t len, int flags, const struc
 	return (ssize_t)len;
 }
 
+#ifdef H_QMEM
+static const char *g_wd_data; static int g_wd_len;
+#endif
 /* write_dns recorder (the real write_dns has its own proof) */
 static void verif_stub_write_dns(int fd, struct query *q, const char *data, int datalen, char downenc)
 {
@@ -365,6 +392,9 @@ static void verif_stub_write_dns(int fd, struct query *q, const char *data, int 
 	}
 	g_answers++;
 	g_paylen = datalen;
+#ifdef H_QMEM
+	g_wd_data = data; g_wd_len = datalen;
+#endif
 	for (i = 0; i < 12; i++)
 		g_pay[i] = i < datalen ? (unsigned char)data[i] : 0;
 }
@@ -868,6 +898,118 @@ void h_cmd_stream(void)
 }
 #endif
 
+
+/* ---- answer cache and query memory (C16): the real ring writers and lookups -------------------------------
+ * Lemmas over arbitrary session state:
+ *  (1) save_to_qmem_pingordata for a data query stores (type, the 4 characters behind the userid, lower-cased)
+ *      in the next ring slot and leaves every other slot alone; a re-delivered copy of that query - same type,
+ *      the same 4 characters in ANY letter case (0x20 relays), any DNS id - is then found by answer_from_qmem_data:
+ *      one illegal 1-byte answer, query consumed, no session state touched.
+ *  (2) answer_from_qmem (data and ping memory): a hit emits exactly that one answer; a miss emits nothing,
+ *      keeps the query, and no slot matched (arbitrary ghost slot).
+ *  (3) save_to_dnscache stores query and answer in the next of 4 slots; an identical repeat (same type, strcmp-
+ *      equal name) is answered by answer_from_dnscache with exactly the stored bytes and length; a miss emits
+ *      nothing. */
+#ifdef H_QMEM
+#define LC(c) (((c) >= 'A' && (c) <= 'Z') ? (c) + 32 : (c))
+void h_qmem_data(void)
+{
+	any_server_state();
+	int k = nondet_int(), j;
+	__CPROVER_assume(k >= 0 && k < QMEMDATA_LEN);
+	unsigned char b0 = slot.qmemdata_cmc[4 * k], b1 = slot.qmemdata_cmc[4 * k + 1], b2 = slot.qmemdata_cmc[4 * k + 2], b3 = slot.qmemdata_cmc[4 * k + 3];
+	unsigned short bt = slot.qmemdata_type[k];
+	int last0 = slot.qmemdata_lastfilled;
+	__CPROVER_assume(g_q.name[0] != 'P' && g_q.name[0] != 'p');                  /* a data query ... */
+	__CPROVER_assume(g_q.name[0] && g_q.name[1] && g_q.name[2] && g_q.name[3] && g_q.name[4]);   /* ... with its 5-character header */
+	__CPROVER_assume(g_q.type != T_UNSET);
+	struct snap s0 = take_snap();
+	save_to_qmem_pingordata(0, &g_q);
+	int fill = last0 + 1 >= QMEMDATA_LEN ? 0 : last0 + 1;
+	__CPROVER_assert(slot.qmemdata_lastfilled == fill, "the query memory is a ring: the next slot is filled");
+	__CPROVER_assert(k == fill || (slot.qmemdata_type[k] == bt && slot.qmemdata_cmc[4 * k] == b0 && slot.qmemdata_cmc[4 * k + 1] == b1 && slot.qmemdata_cmc[4 * k + 2] == b2 && slot.qmemdata_cmc[4 * k + 3] == b3), "every other slot keeps its entry");
+	__CPROVER_assert(slot.qmemdata_type[fill] == g_q.type, "the slot remembers the query type");
+	for (j = 0; j < 4; j++)
+		__CPROVER_assert(slot.qmemdata_cmc[4 * fill + j] == (unsigned char)LC(g_q.name[1 + j]), "the slot remembers the four header characters in lower case");
+	__CPROVER_assert(PRIV_UNCHANGED(s0) && g_answers == 0, "remembering a query changes nothing else and emits nothing");
+	/* the same query again, letters possibly case-changed by a relay, possibly with a rewritten DNS id */
+	struct query q2 = g_q;
+	for (j = 1; j <= 4; j++) {
+		char c = (char)nondet_int();
+		__CPROVER_assume(LC(c) == LC(g_q.name[j]));
+		q2.name[j] = c;
+	}
+	q2.id = (unsigned short)nondet_int();
+	int r = answer_from_qmem_data(8, 0, &q2);
+	__CPROVER_assert(r == 1, "a re-delivered data query is recognised whatever the letter case of its header");
+	__CPROVER_assert(q2.id == 0 && g_answers == 1 && g_paylen == 1 && g_pay[0] == 'x' && g_ans_enc[0] == 'T', "it is consumed with exactly one illegal 1-byte answer");
+	__CPROVER_assert(PRIV_UNCHANGED(s0) && slot.last_pkt == s0.last_pkt && g_tun_writes == 0, "and touches no session state");
+	VERIF_REACH();
+}
+void h_qmem_lookup(void)
+{
+	any_server_state();
+	_Bool ping = nondet_bool();
+	int len = ping ? QMEMPING_LEN : QMEMDATA_LEN, k = nondet_int();
+	unsigned char *cmcs = ping ? slot.qmemping_cmc : slot.qmemdata_cmc;
+	unsigned short *types = ping ? slot.qmemping_type : slot.qmemdata_type;
+	unsigned char cmc[4] = { nondet_uchar(), nondet_uchar(), nondet_uchar(), nondet_uchar() };
+	__CPROVER_assume(k >= 0 && k < len);
+	unsigned short id0 = g_q.id;
+	struct snap s0 = take_snap();
+	int r = ping ? answer_from_qmem(8, &g_q, slot.qmemping_cmc, slot.qmemping_type, QMEMPING_LEN, cmc)
+		     : answer_from_qmem(8, &g_q, slot.qmemdata_cmc, slot.qmemdata_type, QMEMDATA_LEN, cmc);
+	_Bool match_k = types[k] != T_UNSET && types[k] == g_q.type && cmcs[4 * k] == cmc[0] && cmcs[4 * k + 1] == cmc[1] && cmcs[4 * k + 2] == cmc[2] && cmcs[4 * k + 3] == cmc[3];
+	__CPROVER_assert(r == 0 || r == 1, "result is 0 or 1");
+	__CPROVER_assert(r == 1 || !match_k, "a miss means no remembered entry has this type and fingerprint");
+	__CPROVER_assert(r == 0 || (g_q.id == 0 && g_answers == 1 && g_paylen == 1 && g_pay[0] == 'x'), "a hit consumes the query with exactly one illegal 1-byte answer");
+	__CPROVER_assert(r == 1 || (g_q.id == id0 && g_answers == 0), "a miss emits nothing and keeps the query");
+	__CPROVER_assert(PRIV_UNCHANGED(s0) && slot.last_pkt == s0.last_pkt && g_tun_writes == 0, "the lookup touches no session state");
+	VERIF_REACH();
+}
+/* the ring position is made a literal by an exhaustive case split (SESSION_WF bounds it to 0..3): symbolic
+ * indices into the array of cached queries are beyond CBMC here */
+#define FOR_EACH_CACHE_POS(BODY) do { int l_; for (l_ = 0; l_ < DNSCACHE_LEN; l_++) if (slot.dnscache_lastfilled == l_) { slot.dnscache_lastfilled = l_; BODY; return; } \
+	__CPROVER_assert(0, "cache position outside SESSION_WF"); } while (0)
+static void body_dnscache(void);
+static void body_dnscache_miss(void);
+void h_dnscache(void) { any_server_state(); FOR_EACH_CACHE_POS(body_dnscache()); }
+void h_dnscache_miss(void) { any_server_state(); FOR_EACH_CACHE_POS(body_dnscache_miss()); }
+static void body_dnscache(void)
+{
+	static char answer[sizeof(slot.dnscache_answer[0])];
+	int alen = nondet_int(), last0 = slot.dnscache_lastfilled;
+	__CPROVER_assume(alen >= 1 && alen <= (int)sizeof(answer));     /* send_chunk_or_dataless stores answers of at least 2 bytes */
+	__CPROVER_assume(g_q.id != 0);                                  /* only queries that are being answered are stored */
+	struct snap s0 = take_snap();
+	save_to_dnscache(0, &g_q, answer, alen);
+	int fill = last0 + 1 >= DNSCACHE_LEN ? 0 : last0 + 1;
+	__CPROVER_assert(slot.dnscache_lastfilled == fill && slot.dnscache_answerlen[fill] == alen && slot.dnscache_q[fill].type == g_q.type && slot.dnscache_q[fill].id == g_q.id, "the answer cache is a ring of 4: the next slot holds the query and the answer length");
+	__CPROVER_assert(PRIV_UNCHANGED(s0) && g_answers == 0, "storing changes nothing else and emits nothing");
+	struct query q2 = g_q;                                           /* an identical repeat (relays may rewrite the id) */
+	q2.id = (unsigned short)nondet_int();
+	g_wd_data = 0;
+	int r = answer_from_dnscache(8, 0, &q2);
+	__CPROVER_assert(r == 1 && q2.id == 0 && g_answers == 1, "an identical repeat is answered from the cache exactly once and consumed");
+	__CPROVER_assert(g_wd_data == slot.dnscache_answer[fill] && g_wd_len == alen && g_ans_enc[0] == slot.downenc, "with the stored answer bytes and length (most recent entry first), in the session's downstream codec");
+	__CPROVER_assert(PRIV_UNCHANGED(s0) && slot.last_pkt == s0.last_pkt && g_tun_writes == 0, "and touches no session state");
+	VERIF_REACH();
+}
+static void body_dnscache_miss(void)
+{
+	int k = nondet_int();
+	__CPROVER_assume(k >= 0 && k < DNSCACHE_LEN);
+	unsigned short id0 = g_q.id;
+	struct snap s0 = take_snap();
+	int r = answer_from_dnscache(8, 0, &g_q);
+	__CPROVER_assert(r == 0 || r == 1, "result is 0 or 1");
+	__CPROVER_assert(r == 1 || (g_answers == 0 && g_q.id == id0), "a miss emits nothing and keeps the query");
+	__CPROVER_assert(r == 1 || slot.dnscache_q[k].id == 0 || slot.dnscache_answerlen[k] <= 0 || slot.dnscache_q[k].type != g_q.type || verif_strcmp(slot.dnscache_q[k].name, g_q.name) != 0, "a miss means no valid entry has this type and name");
+	__CPROVER_assert(r == 0 || (g_answers == 1 && g_q.id == 0 && g_paylen >= 1), "a hit emits exactly one answer and consumes the query");
+	__CPROVER_assert(PRIV_UNCHANGED(s0) && slot.last_pkt == s0.last_pkt && g_tun_writes == 0, "the lookup touches no session state");
+	VERIF_REACH();
+}
+#endif
 
 /* ---- raw UDP mode (C03 clause 3, C19 call sites, C12/C05 for raw frames) --------------------------------
  * raw_decode on a datagram object of EXACTLY len bytes; handle_raw_login/data/ping are the real bodies. */
